@@ -28,7 +28,7 @@ import (
 
 var elevStations = []string{"A27", "E01"}
 var elevSuffix = []string{"N", "S", ""}
-var elevIDs = []string{"1", "2"}
+var elevIDs = []string{"1", "1X"} // two elevators whose ids share their digits
 
 type elevAlert struct{ station, suffix, elev string }
 
